@@ -649,6 +649,9 @@ class LoopSpec:
 
         kw = {}
         for p in inspect.signature(fn).parameters:
+            if p == "yielded" and frame.yielded is not None:
+                kw[p] = list(frame.yielded)  # generator bodies: values yielded since the iteration began
+                continue
             kw[p] = I.load_name(p, frame)
         return I.call(fn, [], kw)
 
@@ -742,6 +745,8 @@ class LoopSpec:
             I.exec_block(s.orelse, frame)
             return
         v0 = self._call(I, self.decreases, frame) if self.decreases is not None else None
+        if frame.yielded is not None:
+            frame.yielded = []
         try:
             I.exec_block(s.body, frame)
         except _Break:
@@ -749,6 +754,8 @@ class LoopSpec:
         except _Continue:
             pass
         prove("loop-invariant-preserved", site, I.as_z3_bool(self._call(I, self.invariant, frame)))
+        if self.post is not None:
+            prove("loop-iteration-post", site, I.as_z3_bool(self._call(I, self.post, frame)))
         if v0 is not None:
             v1 = self._call(I, self.decreases, frame)
             prove("loop-variant-decreases", site, z3.And(iexpr(v0) >= 0, iexpr(v1) < iexpr(v0)))
